@@ -11,18 +11,24 @@ import glob, json, os, shutil, subprocess, sys, time
 prop, n = sys.argv[1], sys.argv[2]
 checks = [prop]
 tier = "quick"
+srcroot = "/tmp/seedout"
+tag = ""
 for i, a in enumerate(sys.argv):
     if a == "--checks":
         checks = sys.argv[i + 1].split(",")
     if a == "--tier":
         tier = sys.argv[i + 1]
-src = f"/tmp/seedout/{prop}"
+    if a == "--src":
+        srcroot = sys.argv[i + 1]
+    if a == "--tag":
+        tag = sys.argv[i + 1]
+src = f"{srcroot}/{prop}"
 diff = f"{src}/mutant_{n}.diff"
 demos = [p for p in glob.glob(f"{src}/*demo_{n}*") if p.endswith(".py")]
 assert os.path.exists(diff), diff
 assert demos, "no demo"
 demo = demos[0]
-wt = f"/tmp/val_{prop}_{n}"
+wt = f"/tmp/val_{prop}{tag}_{n}"
 subprocess.run(["git", "-C", "/repo", "worktree", "remove", "--force", wt], capture_output=True)
 subprocess.run(["git", "-C", "/repo", "worktree", "add", "-q", "--detach", wt, "HEAD"], check=True)
 env = dict(os.environ, PYTHONPATH=wt, PYTHONDONTWRITEBYTECODE="1")
@@ -71,7 +77,7 @@ try:
     meta["valid_seed"] = valid
     print(json.dumps(meta, indent=1))
     if valid:
-        out = f"/verif/seeded/{prop}_{n}"
+        out = f"/verif/seeded/{prop}{tag}_{n}"
         os.makedirs(out, exist_ok=True)
         shutil.copy(diff, out + "/patch.diff")
         shutil.copy(demo, out + "/" + os.path.basename(demo))
